@@ -40,6 +40,8 @@ class Peer:
         self.phase: str | None = None
         self.store: dict[str, dict[Any, dict]] = {c["name"]: {} for c in universe.desc["collections"]}
         self.next_id: dict[str, int] = {c["name"]: 1 for c in universe.desc["collections"]}
+        self.notes: dict[str, dict[Any, dict[int, dict]]] = {c["name"]: {} for c in universe.desc["collections"]}
+        self.next_note = 1
         self.files = universe.files()
         self.counts: dict[str, int] = {}
         self.fired: dict[str, int] = {}
@@ -195,6 +197,10 @@ class Peer:
         return None
 
     def _lifecycle(self, kind: str, op, args, req: WireRequest) -> WireResponse | None:
+        if kind == "delete_keeps" and op.kind == "sub_delete":
+            return WireResponse(204, [], b"", meta={"lifecycle": "kept"}) if self._note(op, args) is not None else None
+        if kind == "delete_denied" and op.kind == "sub_delete":
+            return json_response(403, {"error": "denied"})
         if kind == "delete_keeps" and op.kind == "delete":
             rid = self._parse_id(op, args)
             if rid is not None and rid in self.store[op.collection]:
@@ -208,6 +214,13 @@ class Peer:
                 rid = r.meta.get("id")
                 self.store[op.collection].pop(rid, None)
             return r
+        if kind == "stale_read" and op.kind == "sub_read":
+            if self._note(op, args) is None:
+                try:
+                    return json_response(200, {"id": int(args[1]), "text": "stale"})
+                except (ValueError, IndexError):
+                    return None
+            return None
         if kind == "stale_read" and op.kind == "read":
             rid = self._parse_id(op, args)
             if rid is not None and rid not in self.store[op.collection]:
@@ -294,10 +307,12 @@ class Peer:
                 if not _valid(v, p.schema):
                     return self._bad(f"bad query {p.name}")
         rid = None
-        if op.kind in ("read", "update", "delete"):
+        if op.kind in ("read", "update", "delete", "sub_create", "sub_read", "sub_delete"):
             rid = self._parse_id(op, args)
             if rid is None:
                 return self._bad("bad id")
+        if op.kind.startswith("sub_"):
+            return self._nested(op, args, req, rid)
         body = None
         if op.kind in ("create", "update"):
             ctype = (req.header("Content-Type") or "").split(";")[0].strip().lower()
@@ -329,5 +344,46 @@ class Peer:
             return json_response(200, store[rid])
         if op.kind == "delete":
             del store[rid]
+            self.notes[op.collection].pop(rid, None)  # nested resources die with their parent
             return WireResponse(204, [], b"")
         raise AssertionError(op.kind)
+
+    def _note(self, op, args):
+        rid = self._parse_id(op, args)
+        try:
+            nid = int(args[1])
+        except (ValueError, IndexError):
+            return None
+        if rid is None or rid not in self.store[op.collection]:
+            return None
+        return self.notes[op.collection].get(rid, {}).get(nid)
+
+    def _nested(self, op, args, req: WireRequest, rid) -> WireResponse:
+        store = self.store[op.collection]
+        if rid not in store:
+            return json_response(404, {"error": "parent not found"})
+        notes = self.notes[op.collection].setdefault(rid, {})
+        if op.kind == "sub_create":
+            ctype = (req.header("Content-Type") or "").split(";")[0].strip().lower()
+            if ctype != "application/json":
+                return self._bad("bad content type")
+            try:
+                body = json.loads(req.body.decode("utf-8"))
+            except (ValueError, UnicodeDecodeError):
+                return self._bad("bad json")
+            if not _valid(body, op.body_schema):
+                return self._bad("bad body")
+            nid = self.next_note
+            self.next_note += 1
+            notes[nid] = {"id": nid, **body}
+            return json_response(201, notes[nid], meta={"id": nid})
+        raw = args[1] if len(args) > 1 else ""
+        if not (raw.isascii() and raw.isdigit() and 1 <= int(raw) <= 9999):
+            return self._bad("bad nid")
+        nid = int(raw)
+        if nid not in notes:
+            return json_response(404, {"error": "note not found"})
+        if op.kind == "sub_read":
+            return json_response(200, notes[nid])
+        del notes[nid]
+        return WireResponse(204, [], b"")
